@@ -120,26 +120,49 @@ def main(tier, replay):
             if l.startswith("COVER "):
                 _, k, v = l.split()
                 cover[k] = int(v)
+    registry = sorted(k[len("registry:"):] for k in cover if k.startswith("registry:"))
+    exercised = {"image:Interfile", "dynamic:Interfile", "dynamic:Multi", "parametric:Interfile", "parametric:Multi"}
+    not_exercised = [r for r in registry if r not in exercised]
     vlib.standard_coverage(chk, stats,
-        "real InterfileOutputFileFormat (setters / parsed parameters / default_sptr) + read_from_file<DiscretisedDensity<3,float>> on generated images: "
-        "every NumericType (10) x ByteOrder (2) x scale_to_write_data setting (automatic, too small, larger than needed, absolute) x value distributions "
-        "(mixed sign, positive, all-zero, all-negative, single voxel, integers, 1e30, 1e-25, non-positive, constant), random index ranges (minima -9..9, "
-        "sizes 1..9, thorough 1..12), voxel sizes and origins (short decimals and arbitrary floats), exam information; dynamic and parametric containers "
-        "through the Interfile and Multi formats; fault stream: data file truncated at every length (small files) / a sample of lengths. "
-        "Operations (one line each, answered by the implementation from the files it wrote/read and by the Lean model): whdr = geometry keys of the header, "
-        "rhdr = index range/origin of the image read back, fsf = stir::find_scale_factor, conv = header scale factor + numbers stored in the data file, "
-        "trunc = read_from_file on a truncated file, exam = exam information after the round trip. Comparison: integers, ranges, error tokens exact; "
+        "SINGLE IMAGES: real InterfileOutputFileFormat (setters / parsed parameters / default_sptr / write_to_file) + read_from_file<DiscretisedDensity<3,float>> "
+        "on generated images: every NumericType (10) x ByteOrder (2) x scale_to_write_data setting (automatic, too small, larger than needed, absolute, 1/4 with exact ties) "
+        "x value distributions (mixed sign, positive, all-zero, all-negative, single voxel, integers, 1e30, 1e-25, non-positive, constant, half-steps), random index ranges "
+        "(minima -9..9, sizes 1..9, thorough 1..12), voxel sizes and origins (short decimals and arbitrary floats), exam information with 0, 1 or (1 case in 4) 2-3 time "
+        "frame definitions attached. CONTAINERS: DynamicDiscretisedDensity and ParametricVoxelsOnCartesianGrid through InterfileDynamic/InterfileParametric/MultiDynamic/"
+        "MultiParametric output formats, set up by setters / parse() / the registry by registered name / default_sptr and write_to_file(): every NumericType x requested "
+        "ByteOrder (the Interfile container formats are fixed to the native order and must say so and announce it; the members of a Multi image are written in the requested "
+        "order) x the 5 scale settings, 2-3 (thorough 2-4) members each with a value distribution of its own drawn from all 11 kinds (the first member cycles through them), "
+        "all modalities. FAULT STREAM: the data file truncated at every length (small files) / at the data-set boundaries +-1 element and a sample of lengths: single images, "
+        "the data file of every Interfile container (also NM) and the data file of EVERY member of every Multi image. "
+        "Operations (one line each, answered by the implementation from the files it wrote/read and by the Lean model): whdr = geometry keys of a header (every header of a "
+        "container), rhdr = index range/origin of an image or member read back, fsf = stir::find_scale_factor, conv = header scale factor + numbers stored in the data file "
+        "(every data set of every container, decoded with the byte order the header announces), offs = data offsets announced for the data sets of an Interfile container, "
+        "trunc / ctrunc / mtrunc = read_from_file on a truncated single image / Interfile container (all data sets, NM flag) / Multi image (length of every member file), "
+        "exam = exam information of an Interfile container, exams = of a single image or Multi member (read_interfile_image keeps the first time frame), examf = of member f "
+        "of a dynamic Interfile image, examm = of a Multi dynamic image assembled from its members. Comparison: integers, ranges, offsets, error tokens exact; "
         "header decimals within 5.01e-6 relative (6 significant digits) + 4*2^-24*sum|terms| for the float operations; scale factors within 2*2^-24 relative; "
         "stored integers n must satisfy |n - x/s| <= 1/2 + 2^-22(|x/s|+1) (quotient and +0.5 computed in binary32); `ub` (model: undefined behaviour in "
-        "stir::round) accepts anything. Oracle (on the implementation, every case): per-voxel get_physical_coordinates_for_indices before = after within "
-        "(printed header error + 8*2^-24*sum|terms|); float output bit-exact; integer output |x' - x| <= s/2 + (5.01e-6 + 8*2^-24)|x| with s the header's "
-        "scale factor, value/s inside the type's range, stored number = rounded quotient; negative -> 0 for unsigned; exam information field by field; "
-        "truncated files rejected. distinct = distinct operation lines.",
-        extra=dict(input_histogram=cover))
+        "stir::round, or quotient within that rounding error of 2^31) accepts anything. Oracle (on the implementation, every case and EVERY MEMBER of every container): "
+        "per-voxel get_physical_coordinates_for_indices before = after within (printed header error + 8*2^-24*sum|terms|); float output bit-exact; double output within "
+        "(5.01e-6 + 4*2^-24)|x|, also stored double x header scale; integer output |x' - x| <= s/2 + (5.01e-6 + 8*2^-24)|x| with s the header's scale factor, value/s inside "
+        "the type's range, stored number = rounded quotient; negative -> 0 for unsigned (stored and read back); exam information field by field (modality, patient position, "
+        "radionuclide, energy window, calibration factor, time frames, start time) for the container AND each member; truncated files rejected, complete files accepted. "
+        "Known findings are absorbed only for exactly their class: stir::round/int32 only for the voxels whose quotient |x/s| (+ its 5.01e-6 uncertainty) reaches 2^31 - "
+        "every other voxel of uint/long/ulong output is checked strictly; the NM data-offset finding only when the data set read back equals data set 1's stored numbers times "
+        "its own scale factor, resp. (truncation) when a file holding one data set is accepted - stored numbers, offsets, geometry and exam information of NM containers are "
+        "checked in any case; DOUBLE autoscale only when the header scale is 0 and zeros come back; subnormal float scale factor (64-bit output of ~1e-25 values) only for the "
+        "range clause. distinct = distinct operation lines.",
+        extra=dict(input_histogram=cover, output_formats_registered_in_this_build=registry, registered_formats_not_exercised=not_exercised))
     chk.assumptions += ["decimal formatting of header numbers (operator<< with 6 significant digits, strtod) is an abstract rounding with relative error <= 5e-6",
-                        "binary32/64 rounding of individual operations is not modelled (derived tolerances), except float underflow of the scale factor",
+                        "binary32/64 rounding of individual operations is not modelled (derived tolerances), except float underflow of the scale factor to 0 "
+                        "(subnormal scale factors: tolerance 2^-149)",
                         "istream::read sets failbit iff fewer bytes remain than requested; file system behaves",
-                        "RadionuclideDB answers are inputs of the model", "32-bit overflow of index arithmetic not modelled"]
+                        "RadionuclideDB answers are inputs of the model", "32-bit overflow of index arithmetic not modelled",
+                        "byte order: the harness decodes the data file with the order the header announces; byte swapping itself is not modelled in Lean",
+                        "image output formats registered in this build: %s (ITK, ECAT6/7 are not built: HAVE_ITK / HAVE_LLN_MATRIX undefined); only these are exercised"
+                        % ", ".join(registry)]
+    if not_exercised:
+        chk.assumptions.append("NOT COVERED: registered output formats that this check does not exercise: " + ", ".join(not_exercised))
     if audit:
         vlib.proof_coverage(chk, audit, "cd lean && lake build StirVerif stirdriver && lake env lean ../build/out/Audit_C10.lean")
     return chk.finish()
